@@ -63,7 +63,7 @@ Lemma blocks_entries es : forall counter,
 Proof.
   induction es as [|t es IH]; intros counter H; cbn [write_entries]; [apply blocks_nil|].
   inversion H as [|? ? Ht Hes]; subst.
-  destruct (write_tar_header (te_e t) (te_target t) (te_xattr t) counter) as [b|] eqn:E.
+  destruct (write_entry_hdr t counter) as [b|] eqn:E.
   - apply blocks_app; [eapply blocks_header; exact E|]. apply blocks_app; [|apply IH; exact Hes].
     destruct (is_reg (e_mode (te_e t)) && negb (e_hardlink (te_e t))) eqn:R; [|apply blocks_nil].
     rewrite <- (Ht R). apply padded_blocks.
@@ -125,11 +125,22 @@ Definition supported (t : tentry) : bool :=
 Definition canon_name (s : list N) : list N :=
   match canon_model s with CanonOk n => n | _ => [] end.
 
-(* what the tar iterator reports for a written entry *)
+(* what the tar iterator reports for an entry sqfs2tar wrote: write_entry
+   hands write_tar_header the reversed xattr list, read_header reverses it
+   once more *)
 Definition view (t : tentry) : tentry :=
-  let d := decoded_of (te_e t) (te_target t) (te_xattr t) in
+  let d := decoded_of (te_e t) (te_target t) (rev (te_xattr t)) in
   let e' := entry_of d (canon_name (e_name (te_e t))) in
   mkte e' (d_link d) (d_xattr d) (if is_reg (e_mode e') then te_data t else []).
+
+(* the xattrs come back in the order the image stores them (hard link records
+   carry none) *)
+Lemma view_xattr t :
+  te_xattr (view t) = if e_hardlink (te_e t) then [] else te_xattr t.
+Proof.
+  unfold view, decoded_of. cbn [te_xattr]. destruct (e_hardlink (te_e t)); cbn [d_xattr]; [reflexivity|].
+  apply rev_involutive.
+Qed.
 
 Definition views (es : list tentry) : list tentry :=
   flat_map (fun t => if supported t then [view t] else []) es.
@@ -138,19 +149,35 @@ Definition entry_ok (t : tentry) : Prop :=
   wf_entry (te_e t) (te_target t) (te_xattr t) /\ data_ok t /\
   (exists n, canon_model (e_name (te_e t)) = CanonOk n).
 
+(* reversing the xattr list keeps the caller's obligations *)
+Lemma schily_payload_rev_length xs :
+  length (schily_payload (rev xs)) = length (schily_payload xs).
+Proof.
+  unfold schily_payload. induction xs as [|x xs IH]; [reflexivity|].
+  cbn [rev map concat]. rewrite map_app, concat_app, !app_length, IH. cbn [map concat].
+  rewrite app_nil_r. lia.
+Qed.
+
+Lemma wf_entry_rev e target xs : wf_entry e target xs -> wf_entry e target (rev xs).
+Proof.
+  intros [W1 W2 W3 W4 W5 W6 W7 W8 W9 W10 W11]. constructor; try assumption.
+  - apply Forall_rev. exact W10.
+  - rewrite schily_payload_rev_length. exact W11.
+Qed.
+
 Lemma supported_ok t counter :
   supported t = true ->
-  exists b, write_tar_header (te_e t) (te_target t) (te_xattr t) counter = W_Ok b.
+  exists b, write_entry_hdr t counter = W_Ok b.
 Proof.
-  unfold supported, write_tar_header. destruct (e_hardlink (te_e t)); [eauto|].
+  unfold supported, write_entry_hdr, write_tar_header. destruct (e_hardlink (te_e t)); [eauto|].
   destruct (type_of_mode (e_mode (te_e t))); [eauto|discriminate].
 Qed.
 
 Lemma unsupported_none t counter :
   supported t = false ->
-  write_tar_header (te_e t) (te_target t) (te_xattr t) counter = W_Unsupported.
+  write_entry_hdr t counter = W_Unsupported.
 Proof.
-  unfold supported. intro H. apply unsupported_iff. apply orb_false_elim in H. destruct H as [H1 H2].
+  unfold supported, write_entry_hdr. intro H. apply unsupported_iff. apply orb_false_elim in H. destruct H as [H1 H2].
   split; [exact H1|]. destruct (type_of_mode (e_mode (te_e t))); [discriminate|reflexivity].
 Qed.
 
@@ -189,16 +216,17 @@ Proof.
     2:{ rewrite (unsupported_none t counter Hs). cbn [app]. apply IH; [exact Hes|exact Hf]. }
     destruct fuel; [cbn in Hf; lia|]. cbn [length] in Hf.
     destruct (supported_ok t counter Hs) as (b & Hb). rewrite Hb.
-    set (e := te_e t) in *. set (d := decoded_of e (te_target t) (te_xattr t)).
+    apply wf_entry_rev in W. unfold write_entry_hdr in Hb.
+    set (e := te_e t) in *. set (d := decoded_of e (te_target t) (rev (te_xattr t))).
     set (tail := write_entries es (counter + 1) ++ zeros 1024).
     set (body := if is_reg (e_mode e) && negb (e_hardlink e)
                  then te_data t ++ padding (e_size e) else []).
     replace ((b ++ body ++ write_entries es (counter + 1)) ++ zeros 1024)
       with (b ++ (body ++ tail)) by (unfold tail; rewrite <- !app_assoc; reflexivity).
-    cbn [read_entries]. rewrite (header_rt_l e (te_target t) (te_xattr t) counter (body ++ tail) b W Hb).
-    fold d. destruct (decoded_facts e (te_target t) (te_xattr t)) as (F1 & F2 & F3 & F4 & F5).
+    cbn [read_entries]. rewrite (header_rt_l e (te_target t) (rev (te_xattr t)) counter (body ++ tail) b W Hb).
+    fold d. destruct (decoded_facts e (te_target t) (rev (te_xattr t))) as (F1 & F2 & F3 & F4 & F5).
     fold d in F1, F2, F3, F4, F5. rewrite F1, F2, Hn.
-    pose proof (is_reg_decoded e (te_target t) (te_xattr t) n (wf_mode _ _ _ W)) as Hreg. fold d in Hreg.
+    pose proof (is_reg_decoded e (te_target t) (rev (te_xattr t)) n (wf_mode _ _ _ W)) as Hreg. fold d in Hreg.
     rewrite Hreg. cbn [app]. unfold view. fold e. fold d. unfold canon_name. rewrite Hn. rewrite Hreg.
     rewrite F5, F4, F3.
     specialize (IH fuel (counter + 1) Hes ltac:(lia)). fold tail in IH.
@@ -229,7 +257,7 @@ Proof.
   induction es as [|t es IH]; intros c; [cbn; lia|].
   cbn [filter write_entries]. destruct (supported t) eqn:Hs.
   - destruct (supported_ok t c Hs) as (b & Hb). rewrite Hb.
-    pose proof (write_tar_header_length _ _ _ _ _ Hb).
+    unfold write_entry_hdr in Hb. pose proof (write_tar_header_length _ _ _ _ _ Hb).
     specialize (IH (c + 1)). rewrite !app_length. cbn [length]. lia.
   - rewrite (unsupported_none t c Hs). apply IH.
 Qed.
@@ -289,3 +317,528 @@ Proof.
   - intros r. vm_compute. intro H. discriminate.
   - vm_compute. discriminate.
 Qed.
+
+(* one entry, sqfs2tar's write_entry -> read_header: the xattrs come back in
+   the order the image stores them *)
+Lemma entry_rt_l t counter rest b :
+  wf_entry (te_e t) (te_target t) (te_xattr t) ->
+  write_entry_hdr t counter = W_Ok b ->
+  exists d, read_header (b ++ rest) = RH_Ok d rest /\
+            d = decoded_of (te_e t) (te_target t) (rev (te_xattr t)) /\
+            d_xattr d = if e_hardlink (te_e t) then [] else te_xattr t.
+Proof.
+  intros W Hb. apply wf_entry_rev in W. unfold write_entry_hdr in Hb.
+  eexists. split; [apply (header_rt_l _ _ _ _ rest _ W Hb)|]. split; [reflexivity|].
+  rewrite decoded_xattr, rev_involutive. reflexivity.
+Qed.
+
+(* ================= the conversion fixpoint ================= *)
+(* what write_tar_header looks at: two entries that agree on it produce the
+   same bytes *)
+Lemma write_ext_header_irrel o1 o2 payload ty nm :
+  e_uid o1 = e_uid o2 -> e_gid o1 = e_gid o2 -> e_mtime o1 = e_mtime o2 ->
+  write_ext_header o1 payload ty nm = write_ext_header o2 payload ty nm.
+Proof.
+  intros Hu Hg Hm. unfold write_ext_header. rewrite !write_header_ext, Hu, Hg, Hm. reflexivity.
+Qed.
+
+Definition is_dev (m : N) : bool := (ftype m =? S_IFCHR) || (ftype m =? S_IFBLK).
+
+Lemma write_header_irrel e1 e2 nm sl ty :
+  e_mode e1 = e_mode e2 -> e_uid e1 = e_uid e2 -> e_gid e1 = e_gid e2 -> e_mtime e1 = e_mtime e2 ->
+  (is_reg (e_mode e1) = true -> e_size e1 = e_size e2) ->
+  (is_dev (e_mode e1) = true -> e_rdev e1 = e_rdev e2) ->
+  write_header e1 nm sl ty = write_header e2 nm sl ty.
+Proof.
+  intros Hm Hu Hg Ht Hs Hd. unfold write_header. unfold is_reg, is_dev in *. rewrite <- Hm, <- Hu, <- Hg, <- Ht.
+  destruct (ftype (e_mode e1) =? S_IFREG); [rewrite (Hs eq_refl)|];
+    (destruct ((ftype (e_mode e1) =? S_IFCHR) || (ftype (e_mode e1) =? S_IFBLK));
+     [rewrite (Hd eq_refl)|]); reflexivity.
+Qed.
+
+Lemma write_tar_header_irrel e1 e2 tg1 tg2 xs1 xs2 c :
+  e_name e1 = e_name e2 -> e_hardlink e1 = e_hardlink e2 ->
+  e_mode e1 = e_mode e2 -> e_uid e1 = e_uid e2 -> e_gid e1 = e_gid e2 -> e_mtime e1 = e_mtime e2 ->
+  (is_reg (e_mode e1) = true -> e_size e1 = e_size e2) ->
+  (is_dev (e_mode e1) = true -> e_rdev e1 = e_rdev e2) ->
+  (e_hardlink e1 = true \/ ftype (e_mode e1) = S_IFLNK -> tg1 = tg2) ->
+  (e_hardlink e1 = false -> xs1 = xs2) ->
+  write_tar_header e1 tg1 xs1 c = write_tar_header e2 tg2 xs2 c.
+Proof.
+  intros Hn Hh Hm Hu Hg Ht Hs Hd Htg Hx. unfold write_tar_header. rewrite <- Hh.
+  destruct (e_hardlink e1) eqn:E.
+  - rewrite <- (Htg (or_introl eq_refl)). unfold write_hard_link.
+    rewrite <- Hn, <- Hm, <- Hu, <- Hg, <- Ht.
+    rewrite (write_ext_header_irrel e1 e2 _ T_GNU_SLINK _ Hu Hg Ht).
+    rewrite (write_ext_header_irrel e1 e2 _ T_GNU_PATH _ Hu Hg Ht). reflexivity.
+  - rewrite <- (Hx eq_refl). rewrite <- Hm. destruct (type_of_mode (e_mode e1)) as [ty|]; [|reflexivity].
+    cbv zeta. rewrite <- Hn.
+    assert (Etg : (if ftype (e_mode e1) =? S_IFLNK then tg1 else None) =
+                  (if ftype (e_mode e1) =? S_IFLNK then tg2 else None)).
+    { destruct (ftype (e_mode e1) =? S_IFLNK) eqn:El; [|reflexivity].
+      apply N.eqb_eq in El. apply Htg. right. exact El. }
+    rewrite <- Etg.
+    rewrite (write_ext_header_irrel e1 e2 _ T_PAX _ Hu Hg Ht).
+    rewrite (write_ext_header_irrel e1 e2 _ T_GNU_PATH _ Hu Hg Ht).
+    assert (Ek : forall t, write_ext_header e1 t T_GNU_SLINK (str_gnu_target ++ dec c) =
+                           write_ext_header e2 t T_GNU_SLINK (str_gnu_target ++ dec c)).
+    { intro t. apply write_ext_header_irrel; assumption. }
+    assert (Ew : forall nm sl, write_header e1 nm sl ty = write_header e2 nm sl ty).
+    { intros nm sl. apply write_header_irrel; assumption. }
+    destruct (if ftype (e_mode e1) =? S_IFLNK then tg1 else None) as [t|];
+      [rewrite Ek|]; rewrite Ew; reflexivity.
+Qed.
+
+(* the shape of an entry as sqfs2tar sees it in an image that tar2sqfs wrote:
+   canonical name (directories with the trailing '/' sqfs2tar adds), 32-bit
+   time stamp, links with the mode every reader forces on them, nothing tar
+   cannot express *)
+Record img_shape (t : tentry) : Prop := {
+  is_supported : supported t = true;
+  is_name : exists c, canon_model (e_name (te_e t)) = CanonOk c /\
+                      e_name (te_e t) = if is_dir (e_mode (te_e t)) then c ++ [47] else c;
+  is_mtime : clamp_mtime (e_mtime (te_e t)) = e_mtime (te_e t);
+  is_linkmode : e_hardlink (te_e t) = true \/ ftype (e_mode (te_e t)) = S_IFLNK ->
+                e_mode (te_e t) = S_IFLNK + 511
+}.
+
+Definition body (t : tentry) : list N :=
+  if is_reg (e_mode (te_e t)) && negb (e_hardlink (te_e t))
+  then te_data t ++ padding (e_size (te_e t)) else [].
+
+Lemma write_entries_eq t r counter :
+  write_entries (t :: r) counter =
+  match write_entry_hdr t counter with
+  | W_Unsupported => write_entries r (counter + 1)
+  | W_Ok b => b ++ body t ++ write_entries r (counter + 1)
+  end.
+Proof. reflexivity. Qed.
+
+(* mode of the entry the tar iterator delivers *)
+Lemma view_mode t :
+  e_mode (te_e t) < 65536 -> img_shape t -> e_mode (te_e (view t)) = e_mode (te_e t).
+Proof.
+  intros Hm S. unfold view, entry_of, decoded_of. cbn [te_e e_mode].
+  destruct (e_hardlink (te_e t)) eqn:Hh; cbn [d_hl d_mode].
+  - symmetry. apply (is_linkmode t S). left. exact Hh.
+  - destruct (ftype (e_mode (te_e t)) =? S_IFLNK) eqn:El.
+    + apply N.eqb_eq in El. symmetry. apply (is_linkmode t S). right. exact El.
+    + apply mode_recompose. exact Hm.
+Qed.
+
+Lemma view_facts t :
+  let e := te_e t in let v := view t in
+  e_hardlink (te_e v) = e_hardlink e /\ e_uid (te_e v) = e_uid e /\ e_gid (te_e v) = e_gid e /\
+  e_mtime (te_e v) = e_mtime e /\ e_name (te_e v) = canon_name (e_name e) /\
+  (e_hardlink e = true \/ ftype (e_mode e) = S_IFLNK -> te_target v = te_target t) /\
+  (is_reg (e_mode e) && negb (e_hardlink e) = true -> e_size (te_e v) = e_size e) /\
+  (is_dev (e_mode e) = true -> e_hardlink e = false -> e_rdev (te_e v) = e_rdev e).
+Proof.
+  cbv zeta. unfold view, entry_of, decoded_of, is_reg, is_dev. cbn [te_e te_target].
+  destruct (e_hardlink (te_e t)) eqn:Hh;
+    cbn [d_hl d_uid d_gid d_mtime d_link d_mode d_actual d_dev e_hardlink e_uid e_gid e_mtime e_name e_size e_rdev e_mode].
+  - repeat split; try reflexivity; try discriminate. rewrite andb_false_r. discriminate.
+  - repeat split; try reflexivity.
+    + intros [H|H]; [discriminate|]. rewrite H. reflexivity.
+    + rewrite andb_true_r. intro R. rewrite R.
+      assert (El : (ftype (e_mode (te_e t)) =? S_IFLNK) = false).
+      { apply N.eqb_eq in R. rewrite R. reflexivity. }
+      rewrite El. apply N.eqb_eq in R.
+      assert (Er : is_reg (perm (e_mode (te_e t)) + ftype (e_mode (te_e t))) = true).
+      { unfold is_reg. rewrite R. unfold ftype, perm.
+        pose proof (N.mod_lt (e_mode (te_e t)) 4096 ltac:(discriminate)) as Hp.
+        replace ((e_mode (te_e t) mod 4096 + S_IFREG) / 4096) with 8.
+        - reflexivity.
+        - unfold S_IFREG. apply N.div_unique with (r := e_mode (te_e t) mod 4096); lia. }
+      unfold is_reg in Er. rewrite Er. reflexivity.
+    + intros D _. rewrite D. reflexivity.
+Qed.
+
+(* one entry through sqfs2tar -> tar iterator -> tar2sqfs -> image: sqfs2tar
+   writes the same bytes for it again *)
+Lemma reimage_view_same t counter :
+  e_mode (te_e t) < 65536 -> img_shape t ->
+  write_entry_hdr (reimage (view t)) counter = write_entry_hdr t counter /\
+  body (reimage (view t)) = body t.
+Proof.
+  intros Hm S. pose proof (view_mode t Hm S) as Emode.
+  destruct (view_facts t) as (Fh & Fu & Fg & Ft & Fn & Ftg & Fs & Fd).
+  destruct (is_name t S) as (c & Hc & Hname).
+  assert (Ename : e_name (te_e (reimage (view t))) = e_name (te_e t)).
+  { unfold reimage. cbn [te_e e_name]. rewrite Emode, Fn. unfold canon_name. rewrite Hc. symmetry. exact Hname. }
+  assert (Elm : e_hardlink (te_e t) = true -> is_reg (e_mode (te_e t)) = false).
+  { intro Hh. rewrite (is_linkmode t S (or_introl Hh)). reflexivity. }
+  split.
+  - unfold write_entry_hdr. apply write_tar_header_irrel.
+    + exact Ename.
+    + unfold reimage. cbn [te_e e_hardlink]. exact Fh.
+    + unfold reimage. cbn [te_e e_mode]. exact Emode.
+    + unfold reimage. cbn [te_e e_uid]. exact Fu.
+    + unfold reimage. cbn [te_e e_gid]. exact Fg.
+    + unfold reimage. cbn [te_e e_mtime]. rewrite Ft. apply (is_mtime t S).
+    + unfold reimage. cbn [te_e e_mode e_size]. rewrite Emode. intro R. apply Fs. rewrite R.
+      destruct (e_hardlink (te_e t)) eqn:Hh; [|reflexivity]. rewrite (Elm eq_refl) in R. discriminate.
+    + unfold reimage. cbn [te_e e_mode e_rdev]. rewrite Emode. intro D. apply Fd; [exact D|].
+      destruct (e_hardlink (te_e t)) eqn:Hh; [|reflexivity].
+      unfold is_dev in D. rewrite (is_linkmode t S (or_introl Hh)) in D. discriminate.
+    + unfold reimage. cbn [te_e te_target e_mode e_hardlink]. rewrite Emode, Fh. exact Ftg.
+    + unfold reimage. cbn [te_e te_xattr e_hardlink]. rewrite Fh. intro Hh. rewrite view_xattr, Hh. reflexivity.
+  - unfold body, reimage. cbn [te_e te_data e_mode e_hardlink e_size]. rewrite Emode, Fh.
+    destruct (is_reg (e_mode (te_e t)) && negb (e_hardlink (te_e t))) eqn:R; [|reflexivity].
+    rewrite (Fs eq_refl). unfold view. cbn [te_data].
+    change (entry_of _ _) with (te_e (view t)). rewrite Emode.
+    apply andb_prop in R. destruct R as [R _]. rewrite R. reflexivity.
+Qed.
+
+Lemma views_all_supported es :
+  Forall (fun t => supported t = true) es -> views es = map view es.
+Proof.
+  induction es as [|t es IH]; intro H; [reflexivity|]. inversion H as [|? ? Ht Hes]; subst.
+  unfold views in *. cbn [flat_map map]. rewrite Ht. cbn [app]. rewrite IH by exact Hes. reflexivity.
+Qed.
+
+Lemma write_entries_reimage es : forall counter,
+  Forall entry_ok es -> Forall img_shape es ->
+  write_entries (map reimage (map view es)) counter = write_entries es counter.
+Proof.
+  induction es as [|t es IH]; intros counter Hok Hsh; [reflexivity|].
+  inversion Hok as [|? ? (W & _ & _) Hok']; inversion Hsh as [|? ? S Hsh']; subst.
+  cbn [map]. rewrite !write_entries_eq.
+  destruct (reimage_view_same t counter (wf_mode _ _ _ W) S) as (Eh & Eb).
+  rewrite Eh, Eb, IH by assumption. reflexivity.
+Qed.
+
+(* tar -> sqfs -> tar -> sqfs: the second archive is the first, byte for byte *)
+Theorem conv_fixpoint_l es :
+  Forall entry_ok es -> Forall img_shape es ->
+  exists es', convert es = RA_Ok es' /\ write_archive es' = write_archive es.
+Proof.
+  intros Hok Hsh. unfold convert. rewrite (archive_rt_l es Hok).
+  eexists. split; [reflexivity|].
+  rewrite views_all_supported.
+  - unfold write_archive. rewrite write_entries_reimage by assumption. reflexivity.
+  - eapply Forall_impl; [|exact Hsh]. intros t S. apply (is_supported t S).
+Qed.
+
+(* ================= one round reaches that shape ================= *)
+(* characters of a canonicalised name: those of the input, and '/' *)
+Section CanonChars.
+  Variable P : N -> Prop.
+  Hypothesis P_slash : P 47.
+
+  Lemma split_slash_chars s : Forall P s -> Forall (Forall P) (split_slash s).
+  Proof.
+    induction s as [|c r IH]; intro H; cbn [split_slash]; [repeat constructor|].
+    inversion H as [|? ? Hc Hr]; subst. specialize (IH Hr).
+    destruct (N.eqb c slash); [constructor; [constructor|exact IH]|].
+    destruct (split_slash r) as [|h t]; [repeat constructor; exact Hc|].
+    inversion IH; subst. constructor; [constructor; assumption|assumption].
+  Qed.
+
+  Lemma join_chars cs : Forall (Forall P) cs -> Forall P (join cs).
+  Proof.
+    induction cs as [|c r IH]; intro H; [constructor|]. inversion H as [|? ? Hc Hr]; subst.
+    rewrite join_cons. apply Forall_app. split; [exact Hc|].
+    destruct r as [|c' r']; [constructor|]. unfold pj. constructor; [exact P_slash|apply IH; exact Hr].
+  Qed.
+
+  Lemma Forall_filter {A} (Q : A -> Prop) f l : Forall Q l -> Forall Q (filter f l).
+  Proof.
+    intro H. apply Forall_forall. intros x Hx. apply filter_In in Hx. rewrite Forall_forall in H. apply H, Hx.
+  Qed.
+
+  Lemma canon_chars s r : canon_result s = Some r -> Forall P s -> Forall P r.
+  Proof.
+    rewrite canon_refines_l. intros H Hs. destruct (spec_comps s r H) as (cs & -> & _ & _ & ->).
+    apply join_chars. unfold comps. apply Forall_filter, Forall_filter, split_slash_chars. exact Hs.
+  Qed.
+End CanonChars.
+
+Lemma canon_model_result s c : canon_model s = CanonOk c <-> canon_result s = Some c.
+Proof.
+  unfold canon_result. destruct (canon_model s); split; intro H; try discriminate; injection H as ->; reflexivity.
+Qed.
+
+Lemma canon_str_ok s c : canon_model s = CanonOk c -> str_ok s -> str_ok c.
+Proof.
+  intros H [H0 Hb]. apply canon_model_result in H.
+  assert (HP : Forall (fun x => x <> 0 /\ byte_ok x) c).
+  { assert (P47 : (47 <> 0 /\ byte_ok 47)) by (split; [discriminate|reflexivity]).
+    apply (canon_chars (fun x => x <> 0 /\ byte_ok x) P47 s c H).
+    apply Forall_forall. intros x Hx. split; [intro E; subst; exact (H0 Hx)|].
+    rewrite Forall_forall in Hb. apply Hb, Hx. }
+  rewrite Forall_forall in HP. split.
+  - intro Hin. destruct (HP 0 Hin) as [Hne _]. apply Hne. reflexivity.
+  - apply Forall_forall. intros x Hx. apply (HP x Hx).
+Qed.
+
+(* a canonical name stays what it is, with or without a trailing '/' *)
+Lemma canon_of_canonical s c : canon_model s = CanonOk c ->
+  canon_model c = CanonOk c /\ canon_model (c ++ [47]) = CanonOk c.
+Proof.
+  intro H. apply canon_model_result in H. apply canon_idem_l in H.
+  split; apply canon_model_result; [exact H|].
+  rewrite canon_refines_l in *. unfold canon_spec in *.
+  assert (E : comps (c ++ [47]) = comps c).
+  { unfold comps. change [47] with (slash :: []). rewrite split_app, filter_app. cbn [split_slash filter nonempty].
+    apply app_nil_r. }
+  rewrite E. exact H.
+Qed.
+
+Lemma clamp_idem x : clamp_mtime (clamp_mtime x) = clamp_mtime x.
+Proof.
+  unfold clamp_mtime. destruct (x <? 0)%Z eqn:E1; [reflexivity|].
+  destruct (4294967295 <? x)%Z eqn:E2; [reflexivity|]. rewrite E1, E2. reflexivity.
+Qed.
+
+Lemma clamp_ok x : mtime_ok (clamp_mtime x).
+Proof.
+  unfold clamp_mtime, mtime_ok, two63. destruct (x <? 0)%Z eqn:E1; [lia|].
+  destruct (4294967295 <? x)%Z eqn:E2; lia.
+Qed.
+
+(* mode of the entry the tar iterator delivers, without the shape hypothesis *)
+Lemma view_mode_gen t :
+  e_mode (te_e t) < 65536 ->
+  e_mode (te_e (view t)) =
+  if e_hardlink (te_e t) || (ftype (e_mode (te_e t)) =? S_IFLNK) then S_IFLNK + 511 else e_mode (te_e t).
+Proof.
+  intro Hm. unfold view, entry_of, decoded_of. cbn [te_e e_mode].
+  destruct (e_hardlink (te_e t)); cbn [d_hl d_mode orb]; [reflexivity|].
+  destruct (ftype (e_mode (te_e t)) =? S_IFLNK); [reflexivity|]. apply mode_recompose. exact Hm.
+Qed.
+
+Definition short_name (t : tentry) : Prop := N.of_nat (length (e_name (te_e t))) < MAX_LEN.
+
+Lemma reimage_view_shape t :
+  entry_ok t -> supported t = true -> img_shape (reimage (view t)).
+Proof.
+  intros (W & _ & (c & Hc)) Hs.
+  pose proof (view_mode_gen t (wf_mode _ _ _ W)) as Em.
+  destruct (view_facts t) as (Fh & Fu & Fg & Ft & Fn & Ftg & Fs & Fd).
+  destruct (canon_of_canonical _ _ Hc) as (C1 & C2).
+  constructor.
+  - unfold supported, reimage. cbn [te_e e_hardlink e_mode]. rewrite Fh, Em.
+    unfold supported in Hs. destruct (e_hardlink (te_e t)); [reflexivity|]. cbn [orb] in *.
+    destruct (ftype (e_mode (te_e t)) =? S_IFLNK); [reflexivity|exact Hs].
+  - exists c. unfold reimage. cbn [te_e e_name e_mode]. rewrite Fn. unfold canon_name. rewrite Hc.
+    destruct (is_dir (e_mode (te_e (view t)))); [split; [exact C2|reflexivity]|split; [exact C1|reflexivity]].
+  - unfold reimage. cbn [te_e e_mtime]. apply clamp_idem.
+  - unfold reimage. cbn [te_e e_hardlink e_mode]. rewrite Fh, Em.
+    destruct (e_hardlink (te_e t)); cbn [orb]; [reflexivity|].
+    destruct (ftype (e_mode (te_e t)) =? S_IFLNK) eqn:El; [reflexivity|].
+    intros [H|H]; [discriminate|]. apply N.eqb_neq in El. contradiction.
+Qed.
+
+Lemma reimage_view_ok t :
+  entry_ok t -> short_name t -> entry_ok (reimage (view t)).
+Proof.
+  intros (W & Hd & (c & Hc)) Hshort.
+  pose proof (view_mode_gen t (wf_mode _ _ _ W)) as Em.
+  destruct (view_facts t) as (Fh & Fu & Fg & Ft & Fn & Ftg & Fs & Fd).
+  destruct (canon_of_canonical _ _ Hc) as (C1 & C2).
+  pose proof (canon_str_ok _ _ Hc (wf_name _ _ _ W)) as (Sc1 & Sc2).
+  assert (Hclen : (length c <= length (e_name (te_e t)))%nat).
+  { apply canon_no_grow_l. apply canon_model_result. exact Hc. }
+  assert (Hm' : e_mode (te_e (view t)) < 65536).
+  { rewrite Em. destruct (e_hardlink (te_e t) || (ftype (e_mode (te_e t)) =? S_IFLNK));
+      [reflexivity|apply (wf_mode _ _ _ W)]. }
+  assert (Hreg : is_reg (e_mode (te_e (view t))) = is_reg (e_mode (te_e t)) && negb (e_hardlink (te_e t))).
+  { apply (is_reg_decoded (te_e t) (te_target t) (rev (te_xattr t)) (canon_name (e_name (te_e t)))
+                          (wf_mode _ _ _ W)). }
+  assert (Hname : e_name (te_e (reimage (view t))) =
+                  if is_dir (e_mode (te_e (view t))) then c ++ [47] else c).
+  { unfold reimage. cbn [te_e e_name]. rewrite Fn. unfold canon_name. rewrite Hc. reflexivity. }
+  split; [|split].
+  - constructor.
+    + rewrite Hname. destruct (is_dir (e_mode (te_e (view t)))); [|split; assumption]. split.
+      * apply no_nul_app; [exact Sc1|]. intros [E|[]]. discriminate.
+      * apply Forall_app. split; [exact Sc2|]. repeat constructor.
+    + rewrite Hname. unfold short_name in Hshort.
+      destruct (is_dir (e_mode (te_e (view t)))); [rewrite app_length; cbn [length]|]; lia.
+    + unfold reimage. cbn [te_e e_mode]. exact Hm'.
+    + unfold reimage. cbn [te_e e_uid]. rewrite Fu. apply (wf_uid _ _ _ W).
+    + unfold reimage. cbn [te_e e_gid]. rewrite Fg. apply (wf_gid _ _ _ W).
+    + unfold reimage, view, entry_of. cbn [te_e e_size].
+      match goal with |- (if ?b then _ else _) < _ => destruct b; [|reflexivity] end.
+      unfold decoded_of. destruct (e_hardlink (te_e t)); cbn [d_actual]; [reflexivity|].
+      destruct (ftype (e_mode (te_e t)) =? S_IFREG); [apply (wf_size _ _ _ W)|reflexivity].
+    + unfold reimage. cbn [te_e e_mtime]. apply clamp_ok.
+    + unfold reimage, view, entry_of, decoded_of. cbn [te_e e_rdev].
+      destruct (e_hardlink (te_e t)); cbn [d_dev]; [reflexivity|].
+      match goal with |- (if ?b then _ else _) < _ => destruct b; [apply (wf_rdev _ _ _ W)|reflexivity] end.
+    + unfold reimage. cbn [te_e te_target e_hardlink e_mode]. rewrite Fh, Em. intro H.
+      assert (H' : e_hardlink (te_e t) = true \/ ftype (e_mode (te_e t)) = S_IFLNK).
+      { destruct (e_hardlink (te_e t)); [left; reflexivity|]. cbn [orb] in H.
+        destruct (ftype (e_mode (te_e t)) =? S_IFLNK) eqn:El; [right; apply N.eqb_eq; exact El|].
+        destruct H as [H|H]; [discriminate|]. apply N.eqb_neq in El. contradiction. }
+      rewrite (Ftg H'). apply (wf_target _ _ _ W H').
+    + unfold reimage. cbn [te_xattr]. rewrite view_xattr.
+      destruct (e_hardlink (te_e t)); [constructor|apply (wf_xattr _ _ _ W)].
+    + unfold reimage. cbn [te_xattr]. rewrite view_xattr.
+      destruct (e_hardlink (te_e t)); [cbn; unfold MAX_LEN; lia|apply (wf_xattr_len _ _ _ W)].
+  - unfold data_ok, reimage. cbn [te_e te_data e_mode e_hardlink e_size]. rewrite Fh.
+    intro R. apply andb_prop in R. destruct R as [R1 R2]. rewrite Hreg in R1.
+    rewrite (Fs R1). unfold view. cbn [te_data].
+    change (entry_of _ _) with (te_e (view t)). rewrite Hreg, R1. apply Hd. exact R1.
+  - exists c. rewrite Hname. destruct (is_dir (e_mode (te_e (view t)))); assumption.
+Qed.
+
+(* any image at all: the first round may change the archive (sockets vanish,
+   symlink permissions become 0777, time stamps are clamped, names are
+   canonicalised), the second round changes nothing *)
+Theorem conv_second_round_l es :
+  Forall entry_ok es -> Forall short_name es ->
+  exists es1 es2, convert es = RA_Ok es1 /\ convert es1 = RA_Ok es2 /\
+                  write_archive es2 = write_archive es1.
+Proof.
+  intros Hok Hsh.
+  assert (H1 : convert es = RA_Ok (map reimage (views es))).
+  { unfold convert. rewrite (archive_rt_l es Hok). reflexivity. }
+  assert (Hboth : Forall entry_ok (map reimage (views es)) /\ Forall img_shape (map reimage (views es))).
+  { clear H1. induction es as [|t es IH]; [split; constructor|].
+    inversion Hok as [|? ? Ht Hes]; inversion Hsh as [|? ? St Ses]; subst.
+    destruct (IH Hes Ses) as (I1 & I2). unfold views in *. cbn [flat_map].
+    destruct (supported t) eqn:Hs; cbn [app map]; [|split; assumption].
+    split; constructor; try assumption.
+    - apply reimage_view_ok; assumption.
+    - apply reimage_view_shape; assumption. }
+  destruct Hboth as (Hok1 & Hsh1).
+  destruct (conv_fixpoint_l _ Hok1 Hsh1) as (es2 & H2 & H3).
+  exists (map reimage (views es)), es2. repeat split; assumption.
+Qed.
+
+(* ================= the unrepaired sqfs2tar ================= *)
+Lemma list_eqb_false a b : list_eqb a b = false -> a <> b.
+Proof. intros H E. subst. rewrite list_eqb_refl in H. discriminate. Qed.
+
+(* ---- boolean checkers for the hypotheses (used by the examples) ---- *)
+Definition str_okb (s : list N) : bool := forallb (fun c => negb (c =? 0) && (c <? 256)) s.
+Definition xattr_okb (x : xattr) : bool :=
+  forallb (fun c => negb (c =? 0) && negb (c =? 61)) (fst x) && (rec_len (fst x) (snd x) <? two64).
+
+Definition entry_okb (t : tentry) : bool :=
+  let e := te_e t in
+  str_okb (e_name e) && (N.of_nat (length (e_name e)) <=? MAX_LEN) && (e_mode e <? 65536) &&
+  (e_uid e <? lim8) && (e_gid e <? lim8) && (e_size e <? two64) &&
+  (- Z.of_N two63 <? e_mtime e)%Z && (e_mtime e <? Z.of_N two63)%Z && (e_rdev e <? two32) &&
+  (if e_hardlink e || (ftype (e_mode e) =? S_IFLNK)
+   then match te_target t with
+        | Some tg => str_okb tg && (N.of_nat (length tg) <=? MAX_LEN)
+        | None => false
+        end
+   else true) &&
+  forallb xattr_okb (te_xattr t) && (N.of_nat (length (schily_payload (te_xattr t))) <=? MAX_LEN) &&
+  (if is_reg (e_mode e) && negb (e_hardlink e) then N.of_nat (length (te_data t)) =? e_size e else true) &&
+  match canon_model (e_name e) with CanonOk _ => true | _ => false end.
+
+Lemma str_okb_sound s : str_okb s = true -> str_ok s.
+Proof.
+  unfold str_okb. rewrite forallb_forall. intro H. split.
+  - intro Hin. specialize (H 0 Hin). discriminate.
+  - apply Forall_forall. intros x Hx. specialize (H x Hx). apply andb_prop in H. destruct H as [_ H].
+    apply N.ltb_lt. exact H.
+Qed.
+
+Lemma entry_okb_sound t : entry_okb t = true -> entry_ok t.
+Proof.
+  unfold entry_okb. cbv zeta. intro H.
+  apply andb_prop in H; destruct H as [H Bcanon].
+  apply andb_prop in H; destruct H as [H Bdata].
+  apply andb_prop in H; destruct H as [H Bpay].
+  apply andb_prop in H; destruct H as [H Bx].
+  apply andb_prop in H; destruct H as [H Btg].
+  apply andb_prop in H; destruct H as [H Brdev].
+  apply andb_prop in H; destruct H as [H Bmt2].
+  apply andb_prop in H; destruct H as [H Bmt1].
+  apply andb_prop in H; destruct H as [H Bsize].
+  apply andb_prop in H; destruct H as [H Bgid].
+  apply andb_prop in H; destruct H as [H Buid].
+  apply andb_prop in H; destruct H as [H Bmode].
+  apply andb_prop in H; destruct H as [Bname Blen].
+  split; [|split].
+  - constructor.
+    + apply str_okb_sound. exact Bname.
+    + apply N.leb_le. exact Blen.
+    + apply N.ltb_lt. exact Bmode.
+    + apply N.ltb_lt. exact Buid.
+    + apply N.ltb_lt. exact Bgid.
+    + apply N.ltb_lt. exact Bsize.
+    + unfold mtime_ok. apply Z.ltb_lt in Bmt1, Bmt2. split; assumption.
+    + apply N.ltb_lt. exact Brdev.
+    + intro Hl.
+      assert (E : e_hardlink (te_e t) || (ftype (e_mode (te_e t)) =? S_IFLNK) = true).
+      { destruct Hl as [Hl|Hl]; rewrite Hl; [reflexivity|]. rewrite N.eqb_refl. apply orb_true_r. }
+      rewrite E in Btg. destruct (te_target t) as [tg|]; [|discriminate].
+      apply andb_prop in Btg. destruct Btg as [T1 T2]. exists tg. split; [reflexivity|].
+      split; [apply str_okb_sound; exact T1|apply N.leb_le; exact T2].
+    + apply Forall_forall. intros x Hx. rewrite forallb_forall in Bx. specialize (Bx x Hx).
+      unfold xattr_okb in Bx. apply andb_prop in Bx. destruct Bx as [K1 K2]. split.
+      * intros c Hc. rewrite forallb_forall in K1. specialize (K1 c Hc). apply andb_prop in K1.
+        destruct K1 as [K1 K1']. split; intro E; subst; discriminate.
+      * apply N.ltb_lt. exact K2.
+    + apply N.leb_le. exact Bpay.
+  - unfold data_ok. intro R. rewrite R in Bdata. apply N.eqb_eq. exact Bdata.
+  - destruct (canon_model (e_name (te_e t))) as [c| |]; try discriminate. exists c. reflexivity.
+Qed.
+
+Definition img_shapeb (t : tentry) : bool :=
+  let e := te_e t in
+  supported t &&
+  match canon_model (e_name e) with
+  | CanonOk c => list_eqb (e_name e) (if is_dir (e_mode e) then c ++ [47] else c)
+  | _ => false
+  end &&
+  (clamp_mtime (e_mtime e) =? e_mtime e)%Z &&
+  (if e_hardlink e || (ftype (e_mode e) =? S_IFLNK) then e_mode e =? S_IFLNK + 511 else true).
+
+Lemma list_eqb_true a : forall b, list_eqb a b = true -> a = b.
+Proof.
+  induction a as [|x a IH]; intros [|y b] H; cbn [list_eqb] in H; try discriminate; [reflexivity|].
+  apply andb_prop in H. destruct H as [H1 H2]. apply N.eqb_eq in H1. subst. f_equal. apply IH. exact H2.
+Qed.
+
+Lemma img_shapeb_sound t : img_shapeb t = true -> img_shape t.
+Proof.
+  unfold img_shapeb. cbv zeta. intro H.
+  apply andb_prop in H; destruct H as [H Blm].
+  apply andb_prop in H; destruct H as [H Bmt].
+  apply andb_prop in H; destruct H as [Bsup Bname].
+  constructor.
+  - exact Bsup.
+  - destruct (canon_model (e_name (te_e t))) as [c| |]; try discriminate. exists c.
+    split; [reflexivity|apply list_eqb_true; exact Bname].
+  - apply Z.eqb_eq. exact Bmt.
+  - intro Hl.
+    assert (E : e_hardlink (te_e t) || (ftype (e_mode (te_e t)) =? S_IFLNK) = true).
+    { destruct Hl as [Hl|Hl]; rewrite Hl; [reflexivity|]. rewrite N.eqb_refl. apply orb_true_r. }
+    rewrite E in Blm. apply N.eqb_eq. exact Blm.
+Qed.
+
+(* ---- the witness: one file with two xattrs ---- *)
+Definition x_user_a : xattr := ([117;115;101;114;46;97], [1]).   (* user.a *)
+Definition x_user_b : xattr := ([117;115;101;114;46;98], [2]).   (* user.b *)
+Definition osc_entry (xs : list xattr) : tentry :=
+  mkte (mkentry [102] (S_IFREG + 420) 0 0 1 5%Z 0 false) None xs [104].
+Definition osc_a : list tentry := [osc_entry [x_user_a; x_user_b]].
+Definition osc_b : list tentry := [osc_entry [x_user_b; x_user_a]].
+
+(* Without the reversal in sqfs2tar's write_entry every conversion round swaps
+   the xattr order: the image in the right shape is NOT a fixpoint, the
+   archives alternate with period 2 (the defect F23). *)
+Lemma old_sqfs2tar_oscillates :
+  Forall entry_ok osc_a /\ Forall img_shape osc_a /\
+  convert_old osc_a = RA_Ok osc_b /\ convert_old osc_b = RA_Ok osc_a /\
+  write_archive_old osc_b <> write_archive_old osc_a.
+Proof.
+  split; [|split; [|split; [|split]]].
+  - constructor; [|constructor]. apply entry_okb_sound. vm_compute. reflexivity.
+  - constructor; [|constructor]. apply img_shapeb_sound. vm_compute. reflexivity.
+  - vm_compute. reflexivity.
+  - vm_compute. reflexivity.
+  - apply list_eqb_false. vm_compute. reflexivity.
+Qed.
+
+(* the repaired sqfs2tar on the same image *)
+Lemma new_sqfs2tar_stable : convert osc_a = RA_Ok osc_a.
+Proof. vm_compute. reflexivity. Qed.
